@@ -764,7 +764,10 @@ class ProtoWorld:
             auth, _ = ov.serializer.unpack_serializable(BinMemberAuthenticationPayload, dg.data, offset=23)
             _, remainder = ov._verify_signature(auth, dg.data)
             payload, = ov.serializer.unpack_serializable_list([PingRequestPayload], remainder, offset=23)
-            self.net.inject(self.addrs[where[0]][where[1]], S_ADDR,
+            # "moved": the peer has moved since it was pinged at its home address; its (correctly signed) answer comes
+            # from its new address, whose masked IP - and therefore node id - is another one
+            src = 1 if (self.m.responsive == "moved" and where[1] == 0) else where[1]
+            self.net.inject(self.addrs[where[0]][src], S_ADDR,
                             ov.ezr_pack(PingResponsePayload.msg_id, PingResponsePayload(payload.identifier)))
         return None
 
@@ -823,7 +826,7 @@ class ProtoModel(core.BfsModel):
                 "capacity": self.capacity, "find": self.find, "ping_interval": self.ping_interval, "tick": self.tick}
 
     def responds(self, r: int, a: int) -> bool:
-        return self.responsive == "all" or (self.responsive == "home" and a != 1)
+        return self.responsive in ("all", "moved") or (self.responsive == "home" and a != 1)
 
     def initial(self) -> ProtoWorld:
         return ProtoWorld(self)
@@ -940,8 +943,10 @@ def proto_configs(ctx: core.Ctx) -> list:
     if ctx.thorough:
         return [(ProtoModel(1, "home", s), 5), (ProtoModel(1, "none", s, find=True), 5),
                 (ProtoModel(2, "home", s), 4), (ProtoModel(2, "all", s, find=True), 3),
-                (ProtoModel(3, "home", s, capacity=2), 3)]
-    return [(ProtoModel(1, "home", s), 4), (ProtoModel(2, "home", s), 3)]
+                (ProtoModel(3, "home", s, capacity=2), 3), (ProtoModel(2, "moved", s), 4),
+                (ProtoModel(3, "moved", s), 3)]
+    return [(ProtoModel(1, "home", s), 4), (ProtoModel(2, "home", s), 3), (ProtoModel(2, "moved", s), 3),
+            (ProtoModel(3, "moved", s), 3)]
 
 
 def proto_replay(data: dict) -> list:
